@@ -544,3 +544,61 @@ Proof.
       intros [(y & H1 & H2)|(y & H1 & H2)]; [left; exists y; now rewrite Hts|]. rewrite Hq in H1. destruct H1 as [H1|H1]; [|right; exists y; now rewrite Hq'].
       exfalso. subst y. rewrite H2 in Hinp. destruct Hinp as [Hp|[Hp _]]; [unfold is_in_progress in Hp; rewrite Hk in Hp; discriminate|congruence].
 Qed.
+
+Lemma tasks_in_progress c s t ti : Inv rules c s -> task_of s t = Some ti -> is_in_progress s t = true.
+Proof. intros (_ & HT & _) Hg. apply (t_tk c s HT). unfold task_of in Hg. congruence. Qed.
+
+Lemma BInv_step_inreq root s : Inv rules ctx0 s -> BInv root None s -> BInv root None (step_inreq rules env ord s).
+Proof.
+  intros HI HB. unfold step_inreq. destruct (is_inreq s) as [|rq rest] eqn:Hq; auto.
+  set (s0 := upd_inreq s rest). set (c := cx_set_fi ctx0 [rq]). set (inp := iq_input rq).
+  assert (HI0 : Inv rules c s0) by (apply (Inv_pop_inreq rules ctx0 s rq rest Hq HI)).
+  assert (HB0 : BInv root None (unpop [rq] [] s0)).
+  { apply (BInv_frame rules env F rank root None s); auto; unfold unpop, s0; autorewrite with iv; auto. now apply (Inv_sreq_scanning rules ctx0). }
+  assert (Hpe : pending_for (unpop [rq] [] s0) inp) by (right; exists rq; split; auto; now left).
+  destruct (BInv_scan_rule root c [rq] [] s0 inp HI0 HB0 (Forall_nil _) Hpe) as (b1 & s1 & E1 & HB1 & Hl1).
+  unfold process_input_request. fold inp. rewrite E1.
+  destruct (scan_rule_post rules env c _ _ _ _ E1 HI0) as (HI1 & _ & Hf1 & Ht1).
+  pose proof (sreq_scanning_unpop rules c [rq] [] s1 HI1 (Forall_nil _)) as Hss1.
+  destruct b1.
+  - (* scanned: demandRule, then the request is routed *)
+    destruct (BInv_demand_rule root c [rq] [] s1 inp HI1 HB1 (Forall_nil _) (Ht1 eq_refl)) as (b2 & s2 & E2 & H2). rewrite E2.
+    destruct (demand_rule_post rules ord c _ _ _ _ E2 HI1 eq_refl (Ht1 eq_refl)) as (HI2 & _ & _ & _).
+    destruct (H2 (proj1 HI2)) as (HB2 & Hav & Hnav).
+    pose proof (sreq_scanning_unpop rules c [rq] [] s2 HI2 (Forall_nil _)) as Hss2.
+    destruct (iq_task rq) as [t|] eqn:Et.
+    + pose proof (Inv_route_request rules c s2 t rq b2 [] eq_refl Et) as HI3.
+      assert (Hex : b2 = false -> aget (is_tasks s2) (iq_input rq) <> None).
+      { intros Hb. apply (t_tk c s2 (proj1 (proj2 HI2))). now apply Hnav. }
+      specialize (HI3 Hex HI2). pose proof (proj1 HI3) as Hn3.
+      destruct (route_request_eff s2 t rq b2 Hn3) as (R1 & R2 & R3 & R4 & R5 & R6 & R7).
+      destruct (Inv_head_fi_ok rules c s2 rq [] eq_refl HI2 t Et) as [Hext Hreq].
+      apply (BInv_routed root (unpop [rq] [] s2) _ t rq (is_inreq s2) HB2 Hss2); auto.
+      * intros t0 ti0 Hg. apply (tasks_in_progress c s2 t0 ti0 HI2 Hg).
+      * apply (t_tk c s2 (proj1 (proj2 HI2))). exact Hext.
+      * destruct b2.
+        -- left. destruct R7 as [Q1 Q2]. split; [now apply Hav|]. split; auto.
+        -- right. exact R7.
+    + apply (BInv_drop_dummy root (unpop [rq] [] s2) s2 rq (is_inreq s2) HB2 Hss2); auto.
+      destruct b2; [right; now apply Hav|left; now apply Hnav].
+  - (* the input is being scanned: the request is paused on it *)
+    pose proof (Hf1 eq_refl) as Hk1. unfold pause_on_rule. rewrite Hk1. cbn [kind_eqb check].
+    apply (BInv_moved root (Some inp) (unpop [rq] [] s1) _ HB1 Hss1); unfold unpop; autorewrite with iv; auto.
+    + intros k. unfold res_of, kind_of. change (rinfo_of (upd_toscan (upd_inreq ?a _) _) k) with (rinfo_of a k). rewrite rinfo_of_mod_ri.
+      destruct (N.eqb k inp) eqn:E; auto. apply N.eqb_eq in E. subst k. auto.
+    + intros t y Hy. exists y. split; auto.
+    + intros t z Hz. exists z. split; auto.
+    + intros y. unfold Unrouted. cbn [is_inreq upd_toscan upd_inreq app]. autorewrite with iv. split.
+      * intros [[H|H]|(k & H)]; [subst y; right; exists inp; rewrite rinfo_of_mod_ri, N.eqb_refl; cbn; apply in_or_app; right; now left|now left|].
+        right. exists k. rewrite rinfo_of_mod_ri. destruct (N.eqb k inp) eqn:E; auto. apply N.eqb_eq in E. subst k. cbn. apply in_or_app. now left.
+      * intros [H|(k & H)]; [left; now right|]. rewrite rinfo_of_mod_ri in H. destruct (N.eqb k inp) eqn:E; [|right; eauto].
+        apply N.eqb_eq in E. subst k. cbn in H. apply in_app_or in H. destruct H as [H|[H|[]]]; [right; eauto|left; now left].
+    + intros y [H|[(k & H)|(t0 & z & Hz & H)]]; [left; exact H| |right; right; eauto].
+      right. left. exists k. rewrite rinfo_of_mod_ri in H. destruct (N.eqb k inp) eqn:E; auto. apply N.eqb_eq in E. subst k. exact H.
+    + intros k Hk Hr. change (rinfo_of (upd_toscan (upd_inreq s1 _) _) k) with (rinfo_of s1 k) in *. rewrite rinfo_of_mod_ri. destruct (N.eqb k inp) eqn:E.
+      * right. cbn. destruct (ri_paused (rinfo_of s1 inp)); discriminate.
+      * apply N.eqb_neq in E. destruct Hr as [H|[H|H]]; auto. inversion H. congruence.
+    + intros k Hk [(y & H1 & H2)|(y & H1 & H2)]; [left; eauto|]. cbn [is_inreq upd_toscan upd_inreq app] in H1. destruct H1 as [H1|H1]; [|right; eauto].
+      exfalso. subst y. fold inp in H2. subst k. change (kind_of (upd_toscan (upd_inreq s1 _) _) inp) with (kind_of s1 inp) in Hk. congruence.
+Qed.
+End Inc.
